@@ -265,7 +265,7 @@ func runCheck(id, tier, repo, keep string, writeEvidence bool) int {
 			all = append(all, o)
 			n++
 		}
-		if n == 0 && len(u.errs) == 0 && !us.swept {
+		if n == 0 && len(u.errs) == 0 && !us.swept && len(us.Only) == 0 {
 			engErrs = append(engErrs, fmt.Sprintf("%s: no obligations generated", u.Name))
 		}
 	}
@@ -478,7 +478,9 @@ func runCheck(id, tier, repo, keep string, writeEvidence bool) int {
 		}
 	}
 	violations += boundedViolations
-	if violations > 0 && exit == 0 {
+	if violations > 0 {
+		// a violation was found: that is the verdict, whatever else went wrong on the way (a
+		// vacuity guard tripped by the same change, contract drift elsewhere)
 		exit = 1
 	}
 	if writeEvidence {
@@ -509,7 +511,7 @@ func runCheck(id, tier, repo, keep string, writeEvidence bool) int {
 			"obligations_generated":    total,
 			"obligations_failed_unlisted": violations,
 			"known_findings":           knownHit,
-			"checker_cmd":              fmt.Sprintf("/verif/bin/govc check -tier %s %s  (VCs from go/ssa of /repo's working tree; z3-new, z3, cvc5 raced per obligation, %ds timeout)", tier, id, timeout),
+			"checker_cmd":              fmt.Sprintf("/verif/bin/govc check -tier %s %s  (VCs from go/ssa of /repo's working tree; z3 5.1.0 and 4.8.12 in default, e-matching-only and no-auto-config configurations and cvc5 1.0 raced per obligation, %ds timeout)", tier, id, timeout),
 			"trusted_base":             trusted,
 			"functions_under_contract": funcsUnderContract,
 			"functions_inlined":        inl,
